@@ -36,10 +36,18 @@ func New(ctx context.Context, opts ...Option) (*Filesystem, error) {
 	}
 	if fs.base != "" {
 		orig := fs.base
-		fs.base = filepath.Clean(orig)
-		if fs.base == ".." || strings.HasPrefix(fs.base, ".."+string(filepath.Separator)) {
+		cleaned := filepath.Clean(orig)
+		if cleaned == ".." || strings.HasPrefix(cleaned, ".."+string(filepath.Separator)) {
 			return nil, fmt.Errorf("invalid base path for filesystem: %s", orig)
 		}
+		// The base is the directory that the path names now: a relative one
+		// would be resolved against the working directory by every
+		// operation, and name another directory after a change of directory
+		abs, err := filepath.Abs(cleaned)
+		if err != nil {
+			return nil, fmt.Errorf("invalid base path for filesystem: %s", orig)
+		}
+		fs.base = abs
 	}
 	return fs, nil
 }
